@@ -7,6 +7,9 @@ dst = f"/verif/seeded/{name}"
 os.makedirs(dst, exist_ok=True)
 for f in glob.glob(src + "/*"):
     b = os.path.basename(f)
+    if os.path.isdir(f):
+        shutil.copytree(f, dst + "/" + b, dirs_exist_ok=True)
+        continue
     if b.endswith(".log") and b not in ("confirm.log",):
         continue
     if os.path.getsize(f) > 300000:
